@@ -99,3 +99,75 @@ M("C13", "C13-RO", UT, '    with tb.open_file(prior_samples_file, mode="r") as f
 M("C13", "C13-WRITE", MP, "    # compute likelihoods\n    lls = marginal_ln_likelihood_helper(**ll_kw)\n", "    # compute likelihoods\n    lls = marginal_ln_likelihood_helper(**ll_kw)\n    import os\n    os.remove(prior_samples_file)\n", "helper deletes the library it was given")
 M("C13", "C13-WRITE", MP, "    task_args = (prior_samples_file, joker_helper)\n", "    task_args = (prior_samples_file, joker_helper)\n    joker_helper.prior.sample(size=1).write(prior_samples_file, append=True)\n", "helper appends to the user's file")
 M("C13", "C13-STATE", TJ, "            samples = rejection_sample_inmem(", "            self._last_helper = joker_helper\n            samples = rejection_sample_inmem(", "sampler caches per-call state on self")
+M("C13", "C13-POOL", MP, "    results = []\n    for res in pool.map(worker, tasks):\n        results.append(res)\n",
+  "    try:\n        results = list(pool.map(worker, tasks))\n    except Exception:\n        pool.close()\n        raise\n", "pool closed on failure (seeded C13-B)")
+T("C13", MP, "    results = []\n    for res in pool.map(worker, tasks):\n        results.append(res)\n", "    results = list(pool.map(worker, tasks))\n", "list(pool.map(...))")
+
+# ---------------------------------------------------------------- C02
+for _f, _p in ((LH, "    good_samples_idx = np.where(np.exp(lls - lls.max()) > uu)[0]\n"),):
+    M("C02", "C02-ACC", _f, _p, _p.replace("lls.max()", "lls.mean()"), "max -> mean (inmem)")
+    M("C02", "C02-ACC", _f, _p, _p.replace("> uu", "< uu"), "comparison inverted (inmem)")
+    M("C02", "C02-ACC", _f, _p, _p.replace("> uu", ">= uu"), "non-strict comparison (inmem)")
+    M("C02", "C02-ACC", _f, _p, _p.replace("lls.max()", "np.median(lls)"), "max -> median (inmem)")
+    M("C02", "C02-ACC", _f, _p, _p.replace("lls.max()", "lls.max(initial=0.0)"), "max with initial=0 (inmem)")
+    T("C02", _f, _p, "    good_samples_idx = np.where(uu < np.exp(lls - lls.max()))[0]\n", "mirrored comparison")
+    T("C02", _f, _p, "    good_samples_idx = np.where(np.exp(lls - np.max(lls)) > uu)[0]\n", "np.max(lls)")
+    T("C02", _f, _p, "    m = lls.max()\n    good_samples_idx = np.where(np.exp(-m + lls) > uu)[0]\n", "temporary for the maximum")
+    T("C02", _f, _p, "    good_samples_idx = np.where(lls - lls.max() > np.log(uu))[0]\n", "log form")
+M("C02", "C02-ACC", LH, "    uu = rng.uniform(size=len(lls))\n", "    uu = rng.uniform(0, 2, size=len(lls))\n", "uniform(0, 2)")
+M("C02", "C02-ACC", LH, "    uu = rng.uniform(size=len(lls))\n", "    uu = rng.uniform(size=len(lls) - 1)\n", "one uniform short")
+M("C02", "C02-ACC", LH, "    uu = rng.uniform(size=len(lls))\n", "    uu = np.random.Generator(np.random.PCG64(rng.bit_generator._seed_seq)).uniform(size=len(lls))\n", "uniforms from a re-seeded copy (seeded C02-B)")
+M("C02", "C02-ACC", MP, "        aa = np.exp(all_marg_lls - all_marg_lls.max())\n", "        aa = np.exp(all_marg_lls - marg_lls.max())\n", "iterative: max over the last batch only")
+M("C02", "C02-ACC", MP, "    good_samples_idx = np.where(np.exp(lls - lls.max()) > uu)[0]\n", "    good_samples_idx = np.where(np.exp(lls - lls.max()) >= uu)[0]\n", "non-strict (file path)")
+M("C02", "C02-SIB", LH, "        aa = np.exp(all_marg_lls - all_marg_lls.max())\n        good_samples_idx = np.where(aa > uu)[0]\n", "        aa = np.exp(all_marg_lls - all_marg_lls.max())\n        good_samples_idx = np.where(aa >= uu)[0]\n", "one sibling non-strict")
+M("C02", "C02-TRUNC", LH, "    good_samples_idx = good_samples_idx[:max_posterior_samples]\n", "    good_samples_idx = good_samples_idx[-max_posterior_samples:]\n", "suffix truncation")
+M("C02", "C02-TRUNC", LH, "    good_samples_idx = good_samples_idx[:max_posterior_samples]\n", "    good_samples_idx = good_samples_idx[1:max_posterior_samples]\n", "first accepted dropped")
+M("C02", "C02-TRUNC", MP, "    good_samples_idx = good_samples_idx[:max_posterior_samples]\n", "    good_samples_idx = good_samples_idx[:max_posterior_samples + 1]\n", "one too many")
+M("C02", "C02-TRUNC", MP, "    good_samples_idx = good_samples_idx[:max_posterior_samples]\n", "", "truncation deleted (file path)")
+M("C02", "C02-TRUNC", MP, "    good_samples_idx = good_samples_idx[:max_posterior_samples]\n", "    good_samples_idx = rng.permutation(good_samples_idx)[:max_posterior_samples]\n", "accepted rows shuffled before truncation")
+M("C02", "C02-COPY", PYX, "                samples[n, j, 1] = e\n                samples[n, j, 2] = om\n", "                samples[n, j, 1] = om\n                samples[n, j, 2] = e\n", "kernel swaps e and omega on output")
+M("C02", "C02-COPY", PYX, "                samples[n, j, 0] = P\n", "                samples[n, j, 0] = P * (1 + 1e-12)\n", "kernel perturbs P")
+M("C02", "C02-COPY", LH, "        prior_samples_batch[good_samples_idx],\n        rng,\n        n_linear_samples=n_linear_samples,\n    )\n\n    if ln_prior is not None and ln_prior is not False:\n        samples[\"ln_prior\"] = ln_prior[good_samples_idx]",
+  "        prior_samples_batch[np.arange(len(good_samples_idx))],\n        rng,\n        n_linear_samples=n_linear_samples,\n    )\n\n    if ln_prior is not None and ln_prior is not False:\n        samples[\"ln_prior\"] = ln_prior[good_samples_idx]", "first k rows instead of the accepted rows")
+M("C02", "C02-COPY", MP, "    task_args = (prior_samples_file, joker_helper, n_linear_samples)\n", "    samples_idx = np.sort(samples_idx)\n    task_args = (prior_samples_file, joker_helper, n_linear_samples)\n", "make_full_samples sorts the accepted rows (seeded C02-A / C06-A)")
+M("C02", "C02-NPRIOR", MP, "        idx = rng.choice(n_total_samples, size=n_prior_samples, replace=False)\n", "        idx = rng.choice(n_total_samples, size=n_prior_samples, replace=True)\n", "random order with repeats")
+M("C02", "C02-NPRIOR", MP, "        ll_kw[\"n_prior_samples\"] = n_prior_samples\n", "        pass\n", "n_prior_samples not forwarded")
+
+# ---------------------------------------------------------------- C06
+M("C06", "C06-SPACE", MP, '        samples["ln_likelihood"] = lls[good_samples_idx]\n', '        samples["ln_likelihood"] = lls[full_samples_idx]\n', "ln_likelihood indexed with library rows")
+M("C06", "C06-SPACE", MP, "            samples[\"ln_prior\"] = data.read_coordinates(\n                full_samples_idx, field=\"ln_prior\"\n            )\n\n    if return_all_logprobs:",
+  "            samples[\"ln_prior\"] = data.read_coordinates(\n                good_samples_idx, field=\"ln_prior\"\n            )\n\n    if return_all_logprobs:", "ln_prior read at evaluation positions under randomize_prior_order")
+M("C06", "C06-SPACE", MP, '        samples["ln_likelihood"] = all_marg_lls[good_samples_idx]\n', '        samples["ln_likelihood"] = marg_lls[good_samples_idx]\n', "iterative: last batch's likelihoods")
+M("C06", "C06-SPACE", LH, "    good_samples_idx = good_samples_idx[:max_posterior_samples]\n\n    # generate linear parameters\n    samples = make_full_samples_inmem(\n        joker_helper,\n        prior_samples_batch[good_samples_idx],",
+  "    all_good = good_samples_idx\n    good_samples_idx = good_samples_idx[:max_posterior_samples]\n\n    # generate linear parameters\n    samples = make_full_samples_inmem(\n        joker_helper,\n        prior_samples_batch[all_good],", "rows built from the untruncated index")
+M("C06", "C06-SPACE", LH, '        samples["ln_prior"] = ln_prior[full_samples_idx]\n        samples["ln_likelihood"] = all_marg_lls[good_samples_idx]\n', '        samples["ln_prior"] = ln_prior[full_samples_idx]\n        samples["ln_likelihood"] = all_marg_lls[full_samples_idx[::-1]]\n', "reversed index")
+T("C06", LH, '        samples["ln_prior"] = ln_prior[full_samples_idx]\n', '        samples["ln_prior"] = ln_prior[good_samples_idx]\n', "identity map: E == L in the in-memory iterative sampler")
+M("C06", "C06-FIELD", MP, "            samples[\"ln_prior\"] = data.read_coordinates(\n                full_samples_idx, field=\"ln_prior\"\n            )\n\n    if return_all_logprobs:",
+  "            samples[\"ln_prior\"] = data.read_coordinates(full_samples_idx)\n\n    if return_all_logprobs:", "field= dropped (reverse of fix)")
+M("C06", "C06-FIELD", MP, "            samples[\"ln_prior\"] = data.read_coordinates(\n                full_samples_idx, field=\"ln_prior\"\n            )\n\n    return samples", "            samples[\"ln_prior\"] = data.read_coordinates(\n                full_samples_idx, field=\"ln_likelihood\"\n            )\n\n    return samples", "wrong field")
+M("C06", "C06-ALL", LH, "        return samples, lls\n", "        return samples, lls[good_samples_idx]\n", "return_all_logprobs returns only the accepted values")
+M("C06", "C06-API", TJ, "                if return_logprobs:\n                    ln_prior = prior_samples[\"ln_prior\"]\n\n                prior_samples, _ = prior_samples.pack(\n                    units=joker_helper.internal_units, names=joker_helper.packed_order\n                )\n            else:\n                ln_prior = return_logprobs\n\n            samples = rejection_sample_inmem(",
+  "                if return_logprobs:\n                    ln_prior = prior_samples[\"ln_likelihood\"]\n\n                prior_samples, _ = prior_samples.pack(\n                    units=joker_helper.internal_units, names=joker_helper.packed_order\n                )\n            else:\n                ln_prior = return_logprobs\n\n            samples = rejection_sample_inmem(", "API takes the wrong column as ln_prior")
+
+# ---------------------------------------------------------------- C14
+M("C14", "C14-RAISE", LH, "            raise RuntimeError(\n                \"There are NaN", "            return RuntimeError(\n                \"There are NaN", "return RuntimeError (reverse of fix)")
+M("C14", "C14-RAISE", LH, "        if n_process <= 0:\n            break\n", "        if n_process <= 0:\n            return None\n", "exhaustion returns None")
+M("C14", "C14-TRUNC", LH, "    good_samples_idx = good_samples_idx[:n_requested_samples]\n", "", "truncation deleted (inmem)")
+M("C14", "C14-TRUNC", MP, "    good_samples_idx = good_samples_idx[:n_requested_samples]\n", "    good_samples_idx = good_samples_idx[:n_requested_samples + 1]\n", "one more than requested")
+M("C14", "C14-CHAIN", LH, "        start_idx += n_process\n\n        n_ll_evals = len(all_marg_lls)\n        n_need = n_requested_samples - n_good\n        n_process = int(safety_factor * n_need / n_good * n_ll_evals)\n",
+  "        n_ll_evals = len(all_marg_lls)\n        n_need = n_requested_samples - n_good\n        n_process = int(safety_factor * n_need / n_good * n_ll_evals)\n        start_idx += n_process\n", "cursor advanced by the *next* size (seeded C06-B)")
+M("C14", "C14-CHAIN", MP, "        if start_idx + n_process > max_prior_samples:\n            n_process = max_prior_samples - start_idx\n", "", "clamp deleted (file)")
+M("C14", "C14-CHAIN", MP, "        if n_process <= 0:\n            break\n", "        if n_process < 0:\n            break\n", "<= 0 -> < 0")
+M("C14", "C14-CHAIN", LH, "    if n_process > n_total_samples:\n        raise ValueError(", "    if False:\n        raise ValueError(", "pre-loop size check disabled")
+M("C14", "C14-CHAIN", MP, "        all_idx = rng.choice(n_total_samples, size=max_prior_samples, replace=False)\n", "        all_idx = rng.choice(n_total_samples, size=max_prior_samples, replace=True)\n", "row order with repeats")
+M("C14", "C14-CHAIN", LH, "        if start_idx + n_process > n_total_samples:\n            n_process = n_total_samples - start_idx\n", "        if start_idx + n_process > len(prior_samples_batch):\n            n_process = len(prior_samples_batch) - start_idx\n", "clamp to the array, not the budget (seeded C14-A)")
+M("C14", "C14-CHAIN", MP, "            samples_idx=all_idx[start_idx : start_idx + n_process],\n", "            samples_idx=all_idx[start_idx : start_idx + n_process + 1],\n", "windows overlap by one row")
+T("C14", LH, "        start_idx += n_process\n", "        start_idx = start_idx + n_process\n", "explicit sum")
+M("C14", "C14-ACC", MP, "        aa = np.exp(all_marg_lls - all_marg_lls.max())\n", "        aa = np.exp(all_marg_lls - marg_lls.max())\n", "max over the last batch")
+M("C14", "C14-ACC", MP, "        uu = rng.uniform(size=len(all_marg_lls))\n        aa = np.exp(all_marg_lls - all_marg_lls.max())\n", "        uu = rng.uniform(size=len(marg_lls))\n        aa = np.exp(marg_lls - all_marg_lls.max())\n", "only the new batch is tested")
+M("C14", "C14-BUDGET", TJ, "                n_linear_samples=n_linear_samples,\n                max_prior_samples=max_prior_samples,\n            )\n", "                n_linear_samples=n_linear_samples,\n            )\n", "API drops the budget on the in-memory path (reverse of fix)")
+M("C14", "C14-GUARD", MP, "        if len(good_samples_idx) == 0:\n            raise RuntimeError(\"Failed to find any good samples!\")\n\n        n_good = len(good_samples_idx)\n        logger.log(1, f\"{n_good} good samples after rejection sampling\")\n\n        if n_good >= n_requested_samples:\n            logger.log(1, \"Enough samples found!\")\n            break\n\n        start_idx += n_process\n\n        n_ll_evals = len(all_marg_lls)\n        n_need = n_requested_samples - n_good\n        n_process = int(safety_factor * n_need / n_good * n_ll_evals)\n\n        if start_idx + n_process > max_prior_samples:",
+  "        n_good = max(1, len(good_samples_idx))\n        logger.log(1, f\"{n_good} good samples after rejection sampling\")\n\n        if n_good >= n_requested_samples:\n            logger.log(1, \"Enough samples found!\")\n            break\n\n        start_idx += n_process\n\n        n_ll_evals = len(all_marg_lls)\n        n_need = n_requested_samples - n_good\n        n_process = int(safety_factor * n_need / n_good * n_ll_evals)\n\n        if start_idx + n_process > max_prior_samples:", "empty accepted set no longer raises")
+M("C06", "C06-ROWS", MP, "    task_args = (prior_samples_file, joker_helper, n_linear_samples)\n", "    samples_idx = np.sort(samples_idx)\n    task_args = (prior_samples_file, joker_helper, n_linear_samples)\n", "make_full_samples sorts the accepted rows (seeded C06-A)")
+M("C06", "C06-CHAIN", LH, "        start_idx += n_process\n\n        n_ll_evals = len(all_marg_lls)\n        n_need = n_requested_samples - n_good\n        n_process = int(safety_factor * n_need / n_good * n_ll_evals)\n",
+  "        n_ll_evals = len(all_marg_lls)\n        n_need = n_requested_samples - n_good\n        n_process = int(safety_factor * n_need / n_good * n_ll_evals)\n        start_idx += n_process\n", "cursor advanced by the next size (seeded C06-B)")
